@@ -10,11 +10,14 @@ import numpy as np
 import torch
 
 DT = {"float32": torch.float32, "float64": torch.float64,
-      "bfloat16": torch.bfloat16, "float16": torch.float16}
+      "bfloat16": torch.bfloat16, "float16": torch.float16,
+      "int64": torch.int64, "complex64": torch.complex64}
 NPDT = {"float32": np.float32, "float64": np.float64,
-        "bfloat16": np.float32, "float16": np.float32}     # reduced precisions are cast afterwards
+        "bfloat16": np.float32, "float16": np.float32,     # reduced precisions are cast afterwards
+        "int64": np.int64, "complex64": np.complex64}
 DTNAME = {torch.float32: "float32", torch.float64: "float64",
-          torch.bfloat16: "bfloat16", torch.float16: "float16"}
+          torch.bfloat16: "bfloat16", torch.float16: "float16",
+          torch.int64: "int64", torch.complex64: "complex64"}
 
 LAYOUTS = ("contig", "transposed", "step", "offset", "expand", "chlast", "rowstep", "chanslice")
 # "unbatched" (batch dimension dropped) is drawn separately: an invalid rank on the pinned tree
